@@ -20,15 +20,16 @@ Qed.
 
 Lemma R_req s r r' : R s r -> req r r' -> R s r'.
 Proof.
-  intros HR (A&B&C&D). constructor.
-  - eapply auxeq_trans; [apply HR | exact C].
-  - apply HR.
-  - intros a. rewrite <- A. apply HR.
-  - intros a k. rewrite <- B. apply HR.
-  - apply HR.
-  - apply HR.
-  - apply HR.
-  - intros a Hw Hs. unfold r_get in Hs. rewrite <- A in Hs. apply (R_wr s r HR a); auto.
+  intros HR (A&B&C&D). split; [eapply auxeq_trans; [apply (R_aux s r HR) | exact C]|].
+  intros a. constructor.
+  - apply (R_cnt s r HR a).
+  - apply (R_dl s r HR a).
+  - rewrite <- A. apply (R_acc s r HR a).
+  - intros k. rewrite <- B. apply (R_sto s r HR a k).
+  - apply (R_absent s r HR a).
+  - apply (R_written s r HR a).
+  - apply (R_good s r HR a).
+  - intros Hw Hs. unfold r_get in Hs. rewrite <- A in Hs. apply (R_wr s r HR a); auto.
 Qed.
 
 Lemma R_le s s' r : R s r -> le s s' -> R s' r.
@@ -379,4 +380,349 @@ Proof.
     transitivity (als (aux s1) a k); [symmetry; apply D | exact Ha].
   - apply (sim_aux s1 r1 (EAccSlot a k) _ _ HR1 eq_refl); auto.
     split; [exact A|]. split; [exact B|]. split; [exact C|]. simpl. intros x y. destruct (Z.eqb x a && Z.eqb y k); [reflexivity | apply D].
+Qed.
+
+(** ======================= precompile call: snapshot, flush, bank sends ======================= *)
+Lemma sim_snapshot s r : R s r -> R (precompile_snapshot s) r.
+Proof.
+  intros HR. apply (R_step s _ r r HR).
+  - apply snapshot_txs.
+  - rewrite snapshot_aux. apply (R_aux s r HR).
+  - intros x. left. unfold unch. rewrite snapshot_lookup, snapshot_dirt, snapshot_cur. repeat split; auto.
+Qed.
+
+Lemma flush_lookup s a : repaired (cf s) = true -> lookup (commit_cache s) a = lookup s a.
+Proof.
+  intros Hr. unfold lookup at 1. unfold commit_cache, cur_store. sdb_simp. fold (cur_store s).
+  unfold flush_objs, flush_store. simpl. rewrite Hr.
+  destruct (dirt s a) eqn:Hd.
+  - destruct (lookup s a) eqn:Hl; [reflexivity|]. exact (eq_sym Hl) || (symmetry; exact Hl) || idtac.
+    unfold lookup in Hl. destruct (objs s a); [discriminate|]. destruct (accs (cur_store s) a); [discriminate|reflexivity].
+  - unfold lookup. destruct (objs s a); reflexivity.
+Qed.
+
+Definition all_clean (s : sdb) : Prop := forall a, clean (dirt s a).
+
+(** the two balance views agree (for accounts that have not self-destructed) *)
+Definition views (s : sdb) : Prop :=
+  forall a o, lookup s a = Some o -> suicided o = false -> bank_bal (cur_store s) a = to_native (bal o).
+
+Lemma views_of_clean s r : R s r -> all_clean s -> views s.
+Proof.
+  intros HR Hc a o Hl Hs. pose proof (R_written s r HR a o Hl (Hc a)) as Hw.
+  unfold obj_written in Hw. rewrite Hs in Hw. destruct Hw as [Hw _]. unfold bank_bal. rewrite Hw. reflexivity.
+Qed.
+
+Lemma sim_flush s r : R s r -> repaired (cf s) = true -> R (commit_cache s) r /\ all_clean (commit_cache s).
+Proof.
+  intros HR Hr. split.
+  - set (s' := commit_cache s).
+    assert (Hcur : cur_store s' = flush_store false s (cur_store s)).
+    { unfold s', commit_cache, cur_store. sdb_simp. rewrite Hr. reflexivity. }
+    apply (R_step s s' r r HR eq_refl (R_aux s r HR)).
+    intros x. destruct (dirt s x) as [c|] eqn:Hd.
+    + right. unfold updd.
+      assert (Hn : lookup s x <> None) by (apply (R_dl s r HR x); congruence).
+      destruct (lookup s x) as [o|] eqn:Hl; [|contradiction].
+      pose proof (R_acc s r HR x) as Ha. rewrite Hl in Ha. destruct (r_accs r x) as [y|] eqn:Hy; [|contradiction].
+      destruct (R_good s r HR x o Hl) as (G1&G2&G3).
+      exists o, y. change (txs s') with (txs s). rewrite Hcur.
+      assert (Hd' : dirt s' x = Some 0) by (unfold s', commit_cache, flush_dirt; sdb_simp; rewrite Hd; reflexivity).
+      assert (Hst : forall k, suicided o = false -> stor (flush_store false s (cur_store s)) x k = st (txs s) x o k).
+      { intros k Hs. unfold flush_store. simpl. rewrite Hd, Hl, Hs. unfold st.
+        destruct (dirty o k) eqn:Hk; [reflexivity|]. symmetry. apply G1; assumption. }
+      split; [unfold s'; rewrite flush_lookup by assumption; exact Hl|]. split; [first [exact Hy|reflexivity]|]. split; [exact Ha|].
+      split; [intros c0 Hc0; rewrite Hd' in Hc0; inversion Hc0; lia|].
+      split.
+      { intros _. unfold obj_written. destruct (suicided o) eqn:Hs.
+        - unfold flush_store. simpl. rewrite Hd, Hl, Hs. auto.
+        - split; [unfold flush_store; simpl; rewrite Hd, Hl, Hs; reflexivity|].
+          intros k. symmetry. apply Hst; first [exact Hs|reflexivity]. }
+      split; [intros k; rewrite (R_sto s r HR x k), Hl; reflexivity|].
+      split.
+      { split; [|split; assumption]. intros Hs k Hk. rewrite (Hst k Hs). unfold st. rewrite Hk. reflexivity. }
+      intros Hw Hs. assert (Hs' : rs (r_get r x) = false) by (unfold r_get; rewrite Hy; exact Hs).
+      destruct (R_wr s r HR x Hw Hs') as [W1 W2]. specialize (W2 o Hl). split; [|exact W2].
+      intros k. destruct Ha as (_&_&_&Hsu). rewrite (Hst k ltac:(congruence)). unfold st.
+      destruct (dirty o k) as [v|] eqn:Hk.
+      * rewrite (W2 k v Hk). unfold comm. destruct (origin o k) eqn:Ho; [apply (G2 k w Ho)|reflexivity].
+      * unfold comm. destruct (origin o k) eqn:Ho; [apply (G2 k w Ho)|reflexivity].
+    + left. unfold unch. rewrite Hcur.
+      split; [unfold s'; apply flush_lookup; exact Hr|].
+      split; [unfold s', commit_cache, flush_dirt; sdb_simp; rewrite Hd; reflexivity|].
+      split; [unfold flush_store; simpl; rewrite Hd; reflexivity|].
+      split; [intros k; unfold flush_store; simpl; rewrite Hd; reflexivity|]. repeat split; auto.
+  - intros a. unfold commit_cache, flush_dirt. sdb_simp. destruct (dirt s a); [right|left]; reflexivity.
+Qed.
+
+(** ---- bank SendCoins + SyncStateDBWithAccount ---- *)
+Lemma to_native_to_wei z : to_native (to_wei z) = z.
+Proof. unfold to_native, to_wei, wei_per_unibi. apply Z.div_mul. lia. Qed.
+
+(** SetBalanceWei(a, NativeToWei(bank balance)) on the current state *)
+Definition sync (s : sdb) (a : addr) : sdb := set_balance s a (to_wei (bank_bal (cur_store s) a)).
+
+Lemma set_balance_cur s a b : cur_store (set_balance s a b) = cur_store s.
+Proof. unfold set_balance. rewrite cur_store_set_obj, push_cur. apply get_or_new_cur. Qed.
+Lemma set_balance_txs s a b : txs (set_balance s a b) = txs s.
+Proof. unfold set_balance, set_obj; sdb_simp. rewrite push_txs. apply get_or_new_txs. Qed.
+Lemma set_balance_aux s a b : aux (set_balance s a b) = aux s.
+Proof. unfold set_balance, set_obj; sdb_simp. rewrite push_aux. apply get_or_new_aux. Qed.
+Lemma set_balance_lookup_other s a b x : x <> a -> lookup (set_balance s a b) x = lookup s x.
+Proof.
+  intros H. unfold set_balance. rewrite lookup_set_other, lookup_push by assumption.
+  apply get_or_new_lookup_other; assumption.
+Qed.
+Lemma set_balance_lookup_same s a b : lookup (set_balance s a b) a = Some (w_bal (the_obj s a) b).
+Proof. unfold set_balance. apply lookup_set_same. Qed.
+Lemma set_balance_dirt_other s a b x : x <> a -> dirt (set_balance s a b) x = dirt s x.
+Proof.
+  intros H. unfold set_balance, set_obj; sdb_simp. rewrite push_dirt. simpl. unfold dinc.
+  rewrite upd_other by assumption. apply get_or_new_dirt_other; assumption.
+Qed.
+Lemma set_balance_dirt_same s a b :
+  (forall c, dirt s a = Some c -> 0 <= c) -> exists c, dirt (set_balance s a b) a = Some c /\ 0 < c.
+Proof.
+  intros Hc. unfold set_balance, set_obj; sdb_simp. rewrite push_dirt. simpl. unfold dinc. rewrite upd_same.
+  pose proof (get_or_new_dirt_same s a Hc) as H.
+  destruct (dirt (get_or_new s a) a) as [c|]; eexists; split; try reflexivity; lia.
+Qed.
+
+(** what must hold at [a] for a sync of [a] to establish [Rat] there *)
+Definition presync (s : sdb) (r' : rstate) (a : addr) : Prop :=
+  exists o y', lookup s a = Some o /\ r_accs r' a = Some y' /\
+    rb y' = to_wei (bank_bal (cur_store s) a) /\ nonce o = rn y' /\ code o = rc y' /\ suicided o = rs y' /\
+    (forall c, dirt s a = Some c -> 0 <= c) /\
+    (forall k, r_stor r' a k = st (txs s) a o k) /\
+    obj_good (txs s) (cur_store s) a o /\
+    (r_wr r' a = false -> rs y' = false ->
+       (forall k, stor (cur_store s) a k = stor (txs s) a k) /\ trivial_dirty (txs s) a o).
+
+Lemma sync_gen s r' a : presync s r' a -> Rat (sync s a) r' a.
+Proof.
+  intros (o&y'&L&A&B&N&C&S&Hc&St&G&W). apply Rat_gen. unfold updd, sync.
+  exists (w_bal o (to_wei (bank_bal (cur_store s) a))), y'.
+  rewrite set_balance_txs, set_balance_cur, set_balance_lookup_same. unfold the_obj. rewrite L.
+  destruct (set_balance_dirt_same s a (to_wei (bank_bal (cur_store s) a)) Hc) as (c&Hd&Hp).
+  split; [reflexivity|]. split; [exact A|]. split; [repeat split; simpl; congruence|].
+  split; [intros c0 Hc0; rewrite Hd in Hc0; inversion Hc0; lia|].
+  split; [intros [E|E]; rewrite Hd in E; inversion E; lia|].
+  split; [exact St|]. split; [exact G | exact W].
+Qed.
+
+Lemma sync_unch s r' a x : x <> a -> Rat s r' x -> Rat (sync s a) r' x.
+Proof.
+  intros Hx HA. apply (Rat_unch s _ r' r' x HA); [apply set_balance_txs|].
+  unfold unch, sync. rewrite set_balance_cur, set_balance_lookup_other, set_balance_dirt_other by assumption.
+  repeat split; auto.
+Qed.
+
+Lemma presync_unch s r' a x : x <> a -> presync s r' x -> presync (sync s a) r' x.
+Proof.
+  intros Hx (o&y'&L&A&B&N&C&S&Hc&St&G&W). exists o, y'. unfold sync.
+  rewrite set_balance_txs, set_balance_cur, set_balance_lookup_other, set_balance_dirt_other by assumption.
+  split; [exact L|]. split; [exact A|]. split; [exact B|]. split; [exact N|]. split; [exact C|]. split; [exact S|].
+  split; [exact Hc|]. split; [exact St|]. split; [exact G | exact W].
+Qed.
+
+Lemma presync_of_Rat s r' a o y' :
+  Rat s r' a -> lookup s a = Some o -> r_accs r' a = Some y' ->
+  rb y' = to_wei (bank_bal (cur_store s) a) -> presync s r' a.
+Proof.
+  intros HA L A B. exists o, y'. pose proof (A_acc s r' a HA) as M. rewrite L, A in M. destruct M as (M1&M2&M3&M4).
+  split; [exact L|]. split; [exact A|]. split; [exact B|]. split; [exact M2|]. split; [exact M3|]. split; [exact M4|].
+  split; [apply (A_cnt s r' a HA)|].
+  split; [intros k; rewrite (A_sto s r' a HA k), L; reflexivity|].
+  split; [apply (A_good s r' a HA o L)|].
+  intros Hw Hs. assert (Hs' : rs (r_get r' a) = false) by (unfold r_get; rewrite A; exact Hs).
+  destruct (A_wr s r' a HA Hw Hs') as [W1 W2]. split; [exact W1 | apply W2; exact L].
+Qed.
+
+Definition nonce_of (c : store) (x : addr) : Z := match accs c x with Some a => a_nonce a | None => 0 end.
+Definition code_of (c : store) (x : addr) : Z := match accs c x with Some a => a_code a | None => 0 end.
+
+Lemma bm_stor c f t amt : stor (bank_move c f t amt) = stor c. Proof. reflexivity. Qed.
+Lemma bm_other c f t amt x : x <> f -> x <> t -> accs (bank_move c f t amt) x = accs c x.
+Proof. intros H1 H2. unfold bank_move. simpl. rewrite !upd_other by assumption. reflexivity. Qed.
+
+Lemma bm_acc c f t amt x : x = f \/ x = t ->
+  accs (bank_move c f t amt) x =
+    Some {| a_bal := bank_bal c x - (if x =? f then amt else 0) + (if x =? t then amt else 0);
+            a_nonce := nonce_of c x; a_code := code_of c x |}.
+Proof.
+  intros Hx. unfold bank_move, bank_bal, nonce_of, code_of. simpl.
+  destruct (Z.eqb_spec x t) as [->|Hnt].
+  - rewrite upd_same. unfold upd. destruct (Z.eqb_spec t f) as [->|Hne].
+    + destruct (accs c f); simpl; f_equal; f_equal; lia.
+    + destruct (accs c t); simpl; f_equal; f_equal; lia.
+  - destruct Hx as [-> | ->]; [|contradiction]. rewrite upd_other by assumption. rewrite upd_same.
+    rewrite Z.eqb_refl. destruct (accs c f); simpl; f_equal; f_equal; lia.
+Qed.
+
+Lemma bm_bal c f t amt x :
+  bank_bal (bank_move c f t amt) x = bank_bal c x - (if x =? f then amt else 0) + (if x =? t then amt else 0).
+Proof.
+  destruct (Z.eq_dec x f) as [Hf|Hf]; [|destruct (Z.eq_dec x t) as [Ht|Ht]].
+  - unfold bank_bal at 1. rewrite bm_acc by (left; assumption). reflexivity.
+  - unfold bank_bal at 1. rewrite bm_acc by (right; assumption). reflexivity.
+  - unfold bank_bal at 1. rewrite bm_other by assumption. fold (bank_bal c x).
+    destruct (Z.eqb_spec x f); [contradiction|]. destruct (Z.eqb_spec x t); [contradiction|]. lia.
+Qed.
+
+(** the state after the bank moved the coins, before the syncs: what a sync of [x] will find *)
+Lemma presync_moved s r r' c f t amt x y' :
+  R s r -> views s -> cache s = Some c -> x = f \/ x = t ->
+  rs (r_get r x) = false ->
+  r_accs r' x = Some y' ->
+  rb y' = to_wei (bank_bal (bank_move c f t amt) x) -> rn y' = rn (r_get r x) -> rc y' = rc (r_get r x) ->
+  rs y' = false ->
+  (forall k, r_stor r' x k = r_stor r x k) -> r_wr r' x = r_wr r x ->
+  presync (with_cache s (Some (bank_move c f t amt))) r' x.
+Proof.
+  intros HR HV Hc Hx Hsx A B N C S St Wr.
+  set (c1 := bank_move c f t amt). set (sA := with_cache s (Some c1)).
+  assert (Hcur : cur_store s = c) by (unfold cur_store; rewrite Hc; reflexivity).
+  pose proof (R_acc s r HR x) as Ha.
+  assert (Hl : exists o', lookup sA x = Some o' /\
+            nonce o' = rn (r_get r x) /\ code o' = rc (r_get r x) /\ suicided o' = false /\
+            (forall k, r_stor r x k = st (txs s) x o' k) /\ obj_good (txs s) c x o' /\
+            (r_wr r x = false -> (forall k, stor c x k = stor (txs s) x k) /\ trivial_dirty (txs s) x o')).
+  { unfold lookup at 1. subst sA. sdb_simp. unfold cur_store at 1. sdb_simp.
+    destruct (objs s x) as [o|] eqn:Ho.
+    - pose proof (lookup_objs s x o Ho) as Hl. rewrite Hl in Ha.
+      destruct (r_accs r x) as [y|] eqn:Hy; [|contradiction]. destruct Ha as (A1&A2&A3&A4).
+      assert (Hg : r_get r x = y) by (unfold r_get; rewrite Hy; reflexivity).
+      exists o. split; [reflexivity|]. rewrite Hg. split; [exact A2|]. split; [exact A3|].
+      split; [rewrite Hg in Hsx; congruence|].
+      split; [intros k; rewrite (R_sto s r HR x k), Hl; reflexivity|].
+      split; [rewrite <- Hcur; apply (R_good s r HR x o Hl)|].
+      intros Hw. rewrite <- Hcur.
+      destruct (R_wr s r HR x Hw Hsx) as [W1 W2]. split; [exact W1 | apply W2; exact Hl].
+    - fold c1. unfold c1. rewrite (bm_acc c f t amt x Hx). eexists. split; [reflexivity|].
+      unfold lookup in Ha. rewrite Ho, Hcur in Ha.
+      assert (Hsto : forall k, r_stor r x k = stor (txs s) x k).
+      { intros k. rewrite (R_sto s r HR x k). unfold lookup. rewrite Ho, Hcur.
+        destruct (accs c x) eqn:Hacc; [reflexivity|]. rewrite <- Hcur. apply (R_absent s r HR x).
+        unfold lookup. rewrite Ho, Hcur, Hacc. reflexivity. }
+      assert (Hsc : forall k, stor c x k = stor (txs s) x k).
+      { intros k. destruct (accs c x) eqn:Hacc.
+        - assert (Hl : lookup s x = Some (load_obj a)) by (unfold lookup; rewrite Ho, Hcur, Hacc; reflexivity).
+          destruct (R_good s r HR x _ Hl) as (G1&_&_). rewrite <- Hcur. symmetry. apply (G1 eq_refl k eq_refl).
+        - rewrite <- Hcur. apply (R_absent s r HR x). unfold lookup. rewrite Ho, Hcur, Hacc. reflexivity. }
+      unfold nonce_of, code_of, r_get. simpl.
+      destruct (accs c x) as [a0|], (r_accs r x) as [y|]; try contradiction.
+      + destruct Ha as (A1&A2&A3&A4). simpl in *.
+        split; [exact A2|]. split; [exact A3|]. split; [reflexivity|].
+        split; [exact Hsto|]. split; [|intros _; split; [exact Hsc | intros k v Hv; discriminate]].
+        split; [|split]; simpl; try discriminate; [|intros k Hk; contradiction].
+        intros _ k _. unfold comm. simpl. symmetry. apply Hsc.
+      + simpl. split; [reflexivity|]. split; [reflexivity|]. split; [reflexivity|].
+        split; [exact Hsto|]. split; [|intros _; split; [exact Hsc | intros k v Hv; discriminate]].
+        split; [|split]; simpl; try discriminate; [|intros k Hk; contradiction].
+        intros _ k _. unfold comm. simpl. symmetry. apply Hsc. }
+  destruct Hl as (o'&L&N'&C'&S'&St'&G'&W').
+  exists o', y'. change (txs sA) with (txs s). change (cur_store sA) with c1. change (dirt sA) with (dirt s).
+  split; [exact L|]. split; [exact A|]. split; [exact B|]. split; [congruence|]. split; [congruence|]. split; [congruence|].
+  split; [apply (R_cnt s r HR x)|].
+  split; [intros k; rewrite St; apply St'|].
+  split; [exact G'|].
+  intros Hw _. rewrite Wr in Hw. apply W'; exact Hw.
+Qed.
+
+Lemma r_get_set_same r a x : r_get (r_set r a x) a = x.
+Proof. unfold r_get. rewrite r_set_same. reflexivity. Qed.
+Lemma r_get_set_other r a x b : b <> a -> r_get (r_set r a x) b = r_get r b.
+Proof. intros H. unfold r_get. rewrite r_set_other by assumption. reflexivity. Qed.
+
+Lemma bank_send_sync s c f t amt :
+  cache s = Some c -> (amt <=? 0) || (bank_bal c f <? amt) = false ->
+  bank_send s f t amt = sync (sync (with_cache s (Some (bank_move c f t amt))) f) t.
+Proof.
+  intros Hc Hg. unfold bank_send, sync. rewrite Hc, Hg. rewrite set_balance_cur. reflexivity.
+Qed.
+
+Lemma bank_view s r c x :
+  R s r -> views s -> cache s = Some c -> rs (r_get r x) = false ->
+  bank_bal c x = to_native (rb (r_get r x)).
+Proof.
+  intros HR HV Hc Hs. assert (Hcur : cur_store s = c) by (unfold cur_store; rewrite Hc; reflexivity).
+  pose proof (R_acc s r HR x) as Ha. unfold r_get in *.
+  destruct (lookup s x) as [o|] eqn:Hl, (r_accs r x) as [y|] eqn:Hy; try contradiction.
+  - destruct Ha as (A1&_&_&A4). rewrite <- A1, <- Hcur. apply (HV x o Hl). congruence.
+  - simpl. pose proof (lookup_none_accs s x Hl) as Hn. rewrite Hcur in Hn. unfold bank_bal. rewrite Hn. reflexivity.
+Qed.
+
+Lemma lookup_moved_other s c c1 x :
+  cache s = Some c -> accs c1 x = accs c x -> lookup (with_cache s (Some c1)) x = lookup s x.
+Proof.
+  intros Hc H. unfold lookup, cur_store. sdb_simp. rewrite Hc, H. reflexivity.
+Qed.
+
+Lemma sim_bank_send s r f t amt :
+  R s r -> views s -> cache s <> None -> wf_send r (f, t, amt) = true ->
+  R (bank_send s f t amt) (r_send r f t amt) /\ views (bank_send s f t amt).
+Proof.
+  intros HR HV Hcn Hwf. destruct (cache s) as [c|] eqn:Hc; [|contradiction]. clear Hcn.
+  unfold wf_send in Hwf. simpl in Hwf. apply andb_true_iff in Hwf as [Hsf Hst].
+  apply negb_true_iff in Hsf. apply negb_true_iff in Hst.
+  pose proof (bank_view s r c f HR HV Hc Hsf) as Bf. pose proof (bank_view s r c t HR HV Hc Hst) as Bt.
+  unfold r_send. rewrite <- Bf.
+  destruct ((amt <=? 0) || (bank_bal c f <? amt)) eqn:Hg.
+  { unfold bank_send. rewrite Hc, Hg. split; assumption. }
+  rewrite (bank_send_sync s c f t amt Hc Hg).
+  set (c1 := bank_move c f t amt). set (sA := with_cache s (Some c1)).
+  set (yf := rw_b (r_get r f) (to_wei (bank_bal c f - amt))).
+  set (r1 := r_set r f yf).
+  set (yt := rw_b (r_get r1 t) (to_wei (to_native (rb (r_get r1 t)) + amt))).
+  set (r' := r_set r1 t yt).
+  assert (Hcur : cur_store s = c) by (unfold cur_store; rewrite Hc; reflexivity).
+  (* the reference accounts of f and t after the send *)
+  assert (Ht' : r_accs r' t = Some yt) by apply r_set_same.
+  assert (Hyt : rb yt = to_wei (bank_bal c1 t) /\ rn yt = rn (r_get r t) /\ rc yt = rc (r_get r t) /\ rs yt = false).
+  { unfold yt, c1. rewrite bm_bal, Z.eqb_refl. destruct (Z.eqb_spec t f) as [E|Hne].
+    - unfold r1. rewrite E, r_get_set_same. unfold yf. simpl.
+      rewrite to_native_to_wei. repeat split; auto; f_equal; lia.
+    - unfold r1. rewrite r_get_set_other by assumption.
+      rewrite <- Bt. repeat split; auto; simpl; f_equal; lia. }
+  destruct Hyt as (Yt1&Yt2&Yt3&Yt4).
+  assert (PSt : t <> f -> presync sA r' t).
+  { intros Hne. apply (presync_moved s r r' c f t amt t yt HR HV Hc (or_intror eq_refl) Hst Ht' Yt1 Yt2 Yt3 Yt4); reflexivity. }
+  assert (Hf' : exists y, r_accs r' f = Some y /\ rb y = to_wei (bank_bal c1 f) /\ rn y = rn (r_get r f) /\
+                          rc y = rc (r_get r f) /\ rs y = false).
+  { destruct (Z.eq_dec f t) as [E|Hne].
+    - exists yt. rewrite E at 1. split; [exact Ht'|]. rewrite E. repeat split; assumption.
+    - exists yf. split; [unfold r'; rewrite r_set_other by assumption; apply r_set_same|].
+      unfold yf, c1. rewrite bm_bal, Z.eqb_refl. simpl. destruct (Z.eqb_spec f t); [contradiction|].
+      repeat split; auto. f_equal. lia. }
+  destruct Hf' as (y&Hy&Y1&Y2&Y3&Y4).
+  assert (PSf : presync sA r' f).
+  { apply (presync_moved s r r' c f t amt f y HR HV Hc (or_introl eq_refl) Hsf Hy Y1 Y2 Y3 Y4); reflexivity. }
+  assert (RAf : Rat (sync sA f) r' f) by (apply sync_gen; exact PSf).
+  assert (PSt' : presync (sync sA f) r' t).
+  { destruct (Z.eq_dec t f) as [E|Hne].
+    - rewrite E. unfold sync at 1. eapply presync_of_Rat; [exact RAf | apply set_balance_lookup_same | exact Hy |].
+      unfold sync. rewrite set_balance_cur. exact Y1.
+    - apply presync_unch; [exact Hne | apply PSt; exact Hne]. }
+  assert (Hoth : forall x, x <> f -> x <> t -> accs c1 x = accs c x) by (intros; apply bm_other; assumption).
+  split.
+  - split.
+    + unfold sync. rewrite !set_balance_aux. apply (R_aux s r HR).
+    + intros x. destruct (Z.eq_dec x t) as [->|Hxt]; [apply sync_gen; exact PSt'|].
+      apply sync_unch; [exact Hxt|].
+      destruct (Z.eq_dec x f) as [->|Hxf]; [exact RAf|].
+      apply sync_unch; [exact Hxf|].
+      destruct HR as [_ HR']. apply (Rat_unch s sA r r' x (HR' x) eq_refl).
+      unfold unch. change (cur_store sA) with c1. rewrite Hcur, (Hoth x Hxf Hxt).
+      split; [apply (lookup_moved_other s c c1 x Hc (Hoth x Hxf Hxt))|].
+      split; [reflexivity|]. split; [reflexivity|]. split; [reflexivity|].
+      unfold r', r1. split; [rewrite !r_set_other by assumption; reflexivity|]. split; reflexivity.
+  - intros x o Hl Hs. unfold sync in *. rewrite !set_balance_cur in *. change (cur_store sA) with c1 in *.
+    destruct (Z.eq_dec x t) as [->|Hxt].
+    + rewrite set_balance_lookup_same in Hl. inversion Hl; subst. simpl. symmetry. apply to_native_to_wei.
+    + rewrite set_balance_lookup_other in Hl by assumption.
+      destruct (Z.eq_dec x f) as [->|Hxf].
+      * rewrite set_balance_lookup_same in Hl. inversion Hl; subst. simpl. symmetry. apply to_native_to_wei.
+      * rewrite set_balance_lookup_other in Hl by assumption.
+        pose proof (lookup_moved_other s c c1 x Hc (Hoth x Hxf Hxt)) as E. fold sA in E. rewrite E in Hl.
+        unfold bank_bal. rewrite (Hoth x Hxf Hxt). fold (bank_bal c x). rewrite <- Hcur. apply (HV x o Hl Hs).
 Qed.
